@@ -329,9 +329,15 @@ func cmdCheck(args []string) int {
 		failed = append(failed, o)
 	}
 	deadReturns := 0
+	deadAllowed := map[string]int{}
+	for f, c := range p.Cons.ByFunc {
+		deadAllowed[shortName(f)] = c.DeadReturns
+	}
 	for _, f := range sortedKeys(reachAll) {
 		deadReturns += len(reachDead[f])
-		if len(reachDead[f]) == reachAll[f] {
+		// more returns proved unreachable than the contract declares as dead code (deadreturns N, default 0): the
+		// facts on those paths contradict each other - an invariant, a callee's postcondition or an axiom is too strong
+		if len(reachDead[f]) > deadAllowed[f] || len(reachDead[f]) == reachAll[f] {
 			failed = append(failed, reachDead[f][0])
 		}
 	}
